@@ -64,6 +64,14 @@ def _diff(a, b):
     return b[i : len(b) - j]
 
 
+HOW = {}  # id(compiled pattern) -> "match" | "search" | "fullmatch": how the implementation applies it
+
+
+def applies(p, s):
+    """Whether the implementation's way of applying recogniser p (match / search / fullmatch) accepts s."""
+    return bool(getattr(p, HOW.get(id(p), "match"))(s))
+
+
 GARBAGE = "@@garbage@@"
 _BASE = dict(sync=["0 = TS 4", "0 = B 120000"], events=['0 = E "x"'], track=["0 = N 0 0"], song=["Resolution = 192"])
 
@@ -79,11 +87,10 @@ def capture_section(sec):
     base = _profiled_parse(_text())
     withg = _profiled_parse(_text(**{sec: _BASE[sec] + [GARBAGE]}))
     d = _diff(base, withg)
-    for _, how in d:
-        if how != "match":
-            raise Unsupported("recogniser applied with re.%s" % how)
     out = []
-    for p, _ in d:
+    for p, how in d:
+        if HOW.setdefault(id(p), how) != how:
+            raise Unsupported("one recogniser applied with re.%s and re.%s" % (HOW[id(p)], how))
         if all(p is not q for q in out):
             out.append(p)
     return out
@@ -99,8 +106,8 @@ def capture_song():
     out = []
     for p, how in withg:
         if cg[id(p)] > cb[id(p)] and all(p is not q for q in out):
-            if how != "match":
-                raise Unsupported("field recogniser applied with re.%s" % how)
+            if HOW.setdefault(id(p), how) != how:
+                raise Unsupported("one field recogniser applied with re.%s and re.%s" % (HOW[id(p)], how))
             out.append(p)
     return out
 
@@ -214,15 +221,23 @@ def _build(nfa, items, start, top, last_index=None):
     return cur
 
 
-def compile_re(pattern, flags=0):
-    """NFA for `re.compile(pattern).match(s)` restricted to s in SIGMA* (no newline)."""
+def compile_re(pattern, flags=0, how="match"):
+    """NFA for `re.compile(pattern).match(s)` (or .search / .fullmatch) restricted to s in SIGMA* (no newline)."""
     if flags & ~re.UNICODE:
         raise Unsupported("flags %r" % flags)
     tree = list(sp.parse(pattern))
-    anchored_end = bool(tree) and tree[-1][0] is sc.AT and str(tree[-1][1]) in ("AT_END", "AT_END_STRING")
+    anchored_end = how == "fullmatch" or (bool(tree) and tree[-1][0] is sc.AT and str(tree[-1][1]) in ("AT_END", "AT_END_STRING"))
+    anchored_start = bool(tree) and tree[0][0] is sc.AT and str(tree[0][1]) in ("AT_BEGINNING", "AT_BEGINNING_STRING")
     nfa = NFA()
     s = nfa.new()
-    e = _build(nfa, tree, s, True)
+    if how == "search" and not anchored_start:
+        # search = any prefix, then the pattern
+        nfa.tr[s].append((SIGMA_SET, s))
+        s2 = nfa.new()
+        nfa.eps[s].add(s2)
+        e = _build(nfa, tree, s2, True)
+    else:
+        e = _build(nfa, tree, s, True)
     if not anchored_end:
         loop = nfa.new()
         nfa.eps[e].add(loop)
@@ -233,7 +248,7 @@ def compile_re(pattern, flags=0):
 
 
 def from_compiled(p):
-    return compile_re(p.pattern, p.flags)
+    return compile_re(p.pattern, p.flags, HOW.get(id(p), "match"))
 
 
 def closure(nfa, S):
@@ -361,7 +376,11 @@ def witnesses(g, preds):
     return out
 
 
-def short_strings(reps, L):
+def short_strings(reps, L, cap=2 * 10**6):
+    """Every string of length <= L over the class representatives; L is lowered until the longest layer has at
+    most `cap` strings (this is the translator's self-check, its size must not depend on what was captured)."""
+    while L > 1 and len(reps) ** L > cap:
+        L -= 1
     for n in range(L + 1):
         for tup in itertools.product(reps, repeat=n):
             yield "".join(tup)
@@ -372,7 +391,7 @@ def conform(pattern_obj, nfa, strings):
     k = 0
     for s in strings:
         k += 1
-        if bool(pattern_obj.match(s)) != accepts(nfa, s):
+        if applies(pattern_obj, s) != accepts(nfa, s):
             raise core.HarnessFault("translator disagrees with the regex engine on %r for pattern %r" % (s, pattern_obj.pattern))
     return k
 
@@ -397,7 +416,7 @@ class DFA:
 
 def conform_fast(pattern_obj, dfa, strings):
     k = 0
-    m = pattern_obj.match
+    m = getattr(pattern_obj, HOW.get(id(pattern_obj), "match"))
     for s in strings:
         k += 1
         if bool(m(s)) != dfa.accepts(s):
